@@ -1316,12 +1316,12 @@ pub fn run(ctx: &mut Ctx, p: Prop) -> &'static str {
     // malformed inputs (harness/src/appbuild.rs); case lines start with `bld`
     crate::appbuild::run_stream(ctx, p);
     match p {
-        Prop::C01 => "random digraphs (rings, grids, two components, dense with parallel edges and self loops), tie-heavy / generic / metric lengths, Dijkstra and A* with weight factors 0..10, forward and reverse, vertex and edge orientation, with the full model stack, followed by a k-shortest-paths stream (single-via vertex- and edge-oriented, Yen where it returns: every single-via route and the first Yen route judged by the same walk oracle; lollipop and edge-oriented multi-route shapes first); non-trivial = successful search with a route of >= 2 edges or a tree of >= 3 entries (KSP: at least two routes), distinct by full output; half of the generated cases build their traversal / access / frontier models through the application's builders, files and services (compared with the in-code construction); then direct calls of a_star_algorithm::run_a_star_edge_oriented + backtrack::edge_oriented_route and of the k-shortest-path algorithms without destination (`bld` stream)",
-        Prop::C02 => "state-independent non-negative costs (distance / speed models, raw / factor / combined rates, per-edge surcharges), no access model, edge-local restrictions, half of the cases metrically consistent; Bellman-Ford oracle; non-trivial as C01; then a `bld` stream: SpeedLookupBuilder / SpeedTraversalEngine::new on speed table files (positive, zero, negative, NaN, inf, junk rows, no rows, missing file, default units, malformed configuration), DistanceTraversalBuilder, the weight_factor query field",
-        Prop::C03 => "all unit configurations of distance / speed models and turn-delay access models; per-edge re-accumulation with the real unit functions, also along every alternative of a k-shortest-paths stream (turn delays, junction of the two halves included); non-trivial as C01; then a `bld` stream: speed table files and TurnDelayAccessModelBuilder on edge-headings files (swapped / wrong header, short records, cells that are no i16, empty departure) with delay-table configurations (missing classes, unknown names, ill-typed values, negative delays — refused, and what the real access model does to the clock is checked —, custom time feature)",
-        Prop::C04 => "road-class, vehicle-restriction (mixed units, values straddling limits), turn-restriction and edge-cut models and their combinations, also on every alternative of a k-shortest-paths stream; non-trivial as C01; then a `bld` stream: VehicleParameters::from_query (every field missing / ill-typed / wrong unit family, axle counts up to 2^32), RoadClassBuilder with class files, parser mappings and road_classes fields (numbers, names, mixed, unknown, out of range), TurnRestrictionBuilder, VehicleRestrictionBuilder (bad names, units, values) and CombinedBuilder",
-        Prop::C05 => "disconnected and restricted graphs, with and without destination; BFS oracle over permitted edges; non-trivial as C01",
-        Prop::C10 => "iteration / solution-size / runtime limits (virtual clock) and combinations from zero to beyond need, followed by a k-shortest-paths stream (single-via and returning Yen runs: each underlying search within its limits, result identical to the unlimited query or the explicit terminated error); non-trivial = successful non-trivial search or explicit termination; then a `bld` stream: TerminationModelBuilder on nested sections with one planted defect (missing / ill-typed fields, malformed durations, unknown types), negative counts, frequency 0, durations beyond u64",
+        Prop::C01 => "random digraphs (rings, grids, two components, dense with parallel edges and self loops), tie-heavy / generic / metric lengths, Dijkstra and A* with weight factors 0..10, forward and reverse, vertex and edge orientation, with the full model stack, followed by a k-shortest-paths stream (single-via vertex- and edge-oriented, Yen where it returns: every single-via route and the first Yen route judged by the same walk oracle; lollipop and edge-oriented multi-route shapes first); non-trivial = successful search with a route of >= 2 edges or a tree of >= 3 entries (KSP: at least two routes), distinct by full output; half of the generated cases build their traversal / access / frontier models through the application's builders, files and services (compared with the in-code construction); then direct calls of a_star_algorithm::run_a_star_edge_oriented + backtrack::edge_oriented_route and of the k-shortest-path algorithms without destination (`bld` stream); one generated case in six (and one single-via case in eight of the k-shortest-paths stream) is pushed into a region the plain generator never reaches: a vertex whose coordinates the haversine function refuses, zero-length edges, zero table speeds (inside the quantifiers, oracles on); 0, -0, negative, 1e308, +-inf, NaN, subnormal lengths / speeds / weights / rates / delays / initial values / weight factors / vehicle limits and limits at the ends of u64 / usize (outside: correspondence only, oracles silent, as on every case whose result holds a non-finite number)",
+        Prop::C02 => "state-independent non-negative costs (distance / speed models, raw / factor / combined rates, per-edge surcharges), no access model, edge-local restrictions, half of the cases metrically consistent; Bellman-Ford oracle; non-trivial as C01; then a `bld` stream: SpeedLookupBuilder / SpeedTraversalEngine::new on speed table files (positive, zero, negative, NaN, inf, junk rows, no rows, missing file, default units, malformed configuration), DistanceTraversalBuilder, the weight_factor query field; one generated case in six (and one single-via case in eight of the k-shortest-paths stream) is pushed into a region the plain generator never reaches: a vertex whose coordinates the haversine function refuses, zero-length edges, zero table speeds (inside the quantifiers, oracles on); 0, -0, negative, 1e308, +-inf, NaN, subnormal lengths / speeds / weights / rates / delays / initial values / weight factors / vehicle limits and limits at the ends of u64 / usize (outside: correspondence only, oracles silent, as on every case whose result holds a non-finite number)",
+        Prop::C03 => "all unit configurations of distance / speed models and turn-delay access models; per-edge re-accumulation with the real unit functions, also along every alternative of a k-shortest-paths stream (turn delays, junction of the two halves included); non-trivial as C01; then a `bld` stream: speed table files and TurnDelayAccessModelBuilder on edge-headings files (swapped / wrong header, short records, cells that are no i16, empty departure) with delay-table configurations (missing classes, unknown names, ill-typed values, negative delays — refused, and what the real access model does to the clock is checked —, custom time feature); one generated case in six (and one single-via case in eight of the k-shortest-paths stream) is pushed into a region the plain generator never reaches: a vertex whose coordinates the haversine function refuses, zero-length edges, zero table speeds (inside the quantifiers, oracles on); 0, -0, negative, 1e308, +-inf, NaN, subnormal lengths / speeds / weights / rates / delays / initial values / weight factors / vehicle limits and limits at the ends of u64 / usize (outside: correspondence only, oracles silent, as on every case whose result holds a non-finite number)",
+        Prop::C04 => "road-class, vehicle-restriction (mixed units, values straddling limits), turn-restriction and edge-cut models and their combinations, also on every alternative of a k-shortest-paths stream; non-trivial as C01; then a `bld` stream: VehicleParameters::from_query (every field missing / ill-typed / wrong unit family, axle counts up to 2^32), RoadClassBuilder with class files, parser mappings and road_classes fields (numbers, names, mixed, unknown, out of range), TurnRestrictionBuilder, VehicleRestrictionBuilder (bad names, units, values) and CombinedBuilder; one generated case in six (and one single-via case in eight of the k-shortest-paths stream) is pushed into a region the plain generator never reaches: a vertex whose coordinates the haversine function refuses, zero-length edges, zero table speeds (inside the quantifiers, oracles on); 0, -0, negative, 1e308, +-inf, NaN, subnormal lengths / speeds / weights / rates / delays / initial values / weight factors / vehicle limits and limits at the ends of u64 / usize (outside: correspondence only, oracles silent, as on every case whose result holds a non-finite number)",
+        Prop::C05 => "disconnected and restricted graphs, with and without destination; BFS oracle over permitted edges; non-trivial as C01; one generated case in six (and one single-via case in eight of the k-shortest-paths stream) is pushed into a region the plain generator never reaches: a vertex whose coordinates the haversine function refuses, zero-length edges, zero table speeds (inside the quantifiers, oracles on); 0, -0, negative, 1e308, +-inf, NaN, subnormal lengths / speeds / weights / rates / delays / initial values / weight factors / vehicle limits and limits at the ends of u64 / usize (outside: correspondence only, oracles silent, as on every case whose result holds a non-finite number)",
+        Prop::C10 => "iteration / solution-size / runtime limits (virtual clock) and combinations from zero to beyond need, followed by a k-shortest-paths stream (single-via and returning Yen runs: each underlying search within its limits, result identical to the unlimited query or the explicit terminated error); non-trivial = successful non-trivial search or explicit termination; then a `bld` stream: TerminationModelBuilder on nested sections with one planted defect (missing / ill-typed fields, malformed durations, unknown types), negative counts, frequency 0, durations beyond u64; one generated case in six (and one single-via case in eight of the k-shortest-paths stream) is pushed into a region the plain generator never reaches: a vertex whose coordinates the haversine function refuses, zero-length edges, zero table speeds (inside the quantifiers, oracles on); 0, -0, negative, 1e308, +-inf, NaN, subnormal lengths / speeds / weights / rates / delays / initial values / weight factors / vehicle limits and limits at the ends of u64 / usize (outside: correspondence only, oracles silent, as on every case whose result holds a non-finite number)",
     }
 }
 
